@@ -218,7 +218,12 @@ class POP3Client:
             while client_connected:
                 msg = await self.reader.readuntil(self.LINE_TERMINATOR)
                 msg = msg.rstrip()
-                if not msg:
+                # NOTE: Once the subprocess answers the commands an empty
+                #       line goes to it like any other line: an answer of
+                #       our own would go out ahead of, or in the middle of,
+                #       the replies that are still being relayed.
+                #
+                if not msg and self.subprocess_intf.state != "transaction":
                     await self.push("-ERR empty command\r\n")
                     continue
                 client_connected = await self.subprocess_intf.message(msg)
@@ -530,14 +535,17 @@ class POP3SubprocessInterface:
         """
         Relay messages from the subprocess to the POP3 client.
 
-        The subprocess sends CRLF-terminated lines (same as IMAP).
-        We read each line and forward it to the POP3 client.
+        The replies are passed on as they arrive, whatever they are: a
+        message line may be longer than the stream reader's limit (waiting
+        for its CRLF gave LimitOverrunError, and the reply ended there.)
         """
         try:
             while True:
-                if self.reader is None or self.reader.at_eof():
+                if self.reader is None:
                     break
-                msg = await self.reader.readuntil(b"\r\n")
+                msg = await self.reader.read(65536)
+                if not msg:
+                    break
                 await self.pop3_client.push(msg)
         except (OSError, asyncio.IncompleteReadError, ConnectionResetError):
             pass
